@@ -118,3 +118,8 @@ def obligations(tier, seed):
     obs.append(make_diag("cycle3", {"a.asm": [" INCLUDE b.asm"], "b.asm": [" INCLUDE c.asm"], "c.asm": ["X NOP", " INCLUDE a.asm"]},
                          [" NOP", " INCLUDE a.asm"], "a -> b -> c -> a"))
     return obs
+
+
+def gates(tier, seed):
+    from .gates import assembler_gates
+    return assembler_gates(tier, seed)
